@@ -164,6 +164,13 @@ def main():
         print(__doc__); return
     if a[0] == "import":
         cmd_import(a[1], a[2], a[3], a[4] if len(a) > 4 else "")
+    elif a[0] == "intake":
+        # intake <worktree> <seed-id> <Cxx> "<needs>": import, confirm, remove the sub-agent's worktree, check
+        cmd_import(a[1], a[2], a[3], a[4] if len(a) > 4 else "")
+        ok = cmd_confirm(a[2])
+        rm_worktree(a[1])
+        if ok:
+            cmd_check(a[2])
     elif a[0] == "confirm":
         cmd_confirm(a[1], full="--full" in a)
     elif a[0] == "check":
